@@ -131,12 +131,14 @@ fn rule_time(u: &mut Unstructured, v3: bool) -> Result<String> {
         4 => format!("/{}:{:02}:{:02}", u.int_in_range(0..=23i32)?, u.int_in_range(0..=59i32)?, u.int_in_range(0..=59i32)?),
         _ => {
             if v3 {
-                let h = u.int_in_range(-72..=72i32)?;
-                match u.below(3)? {
-                    0 => format!("/{}", h),
-                    1 => format!("/{}:{:02}", h, u.int_in_range(0..=59i32)?),
-                    _ => format!("/{}:{:02}:{:02}", h, u.int_in_range(0..=59i32)?, u.int_in_range(0..=59i32)?),
-                }
+                // signed time drawn in seconds, so that every sign x magnitude combination
+                // occurs, including negative times of less than an hour ("/-0:30", "/-0:00:45")
+                let secs = match u.below(3)? {
+                    0 => u.int_in_range(-72..=72i32)? * 3600,
+                    1 => u.int_in_range(-3_599..=3_599i32)?,
+                    _ => u.int_in_range(-72 * 3600..=72 * 3600i32)?,
+                };
+                format!("/{}", fmt_off(u, secs, false)?)
             } else {
                 format!("/{}", u.int_in_range(1..=3i32)?)
             }
